@@ -1010,9 +1010,9 @@ QUICK_MUTATED = (
     'file/mistral/resources/actions/wait_ssh.yaml',
 )
 MAX_NODES_MUTATED = 250     # larger seeds: baseline only
-RUN_MUTANTS_MAX_TASKS = 3   # thorough: accepted mutants of these are run
-PAIR_MAX_TASKS = 3
-PAIR_MAX_NODES = 22
+RUN_MUTANTS_MAX_TASKS = 2   # thorough: accepted mutants of these are run
+PAIR_MAX_TASKS = 2
+PAIR_MAX_NODES = 16
 
 
 def build_jobs(tier):
